@@ -693,6 +693,7 @@ func runSM(s *vsimcore.Sim, p vsimcore.Params) vsimcore.RunInfo {
 		info.SimNs = int64(s.SimTime())
 		w.fillInfo(&info)
 		s.Checkpoint(info)
+		s.Freeze()
 		// shutdown: first let everything that is parked run to quiescence (a goroutine cancelled
 		// while it sits in one of the state machine's 100 ms guarded sends would panic when fake
 		// time advances during the final waits), then cancel
